@@ -2,6 +2,6 @@
 # reverse every fix: commit of /repo on a scratch copy and confirm that the owning check fires
 cd /verif
 grep '^fixed:' findings/KNOWN_FINDINGS.txt | while read -r _ prop hash rest; do
-  p=${prop#property=}; h=${hash%%+*}
+  p=${prop#property=}; h=${hash}
   ./selftest.sh --reverse "$h" "$p" 2>&1 | tail -1
 done
